@@ -33,6 +33,11 @@ def run(tier, seed, t0):
             jobs.append(Job("multi-t%d-bb%d-%d-%d" % (t, bb, ni, no), "drv_c08", "optim", "spqlios-fma",
                             ["--mode", "multi", "--t", t, "--basebit", bb, "--n_in", ni, "--n_out", no,
                              "--reps", 4000 if thorough else 1000, "--seed", seed]))
+    # long decompositions / large source dimensions (n_in * t far beyond the default 1024 x 8)
+    for (t, bb, ni, no) in [(31, 1, 1024, 3), (17, 1, 1024, 2), (9, 2, 2048, 5), (8, 2, 4096, 3), (10, 3, 3000, 2), (16, 1, 2049, 1), (8, 2, 2048, 9), (3, 10, 8192, 2)]:
+        jobs.append(Job("multi-large-t%d-bb%d-%d-%d" % (t, bb, ni, no), "drv_c08", "optim", "spqlios-fma",
+                        ["--mode", "multi", "--t", t, "--basebit", bb, "--n_in", ni, "--n_out", no,
+                         "--reps", 600 if thorough else 150, "--seed", seed], timeout=3600))
     # debug (scalar lweSubTo) on a subset
     for (t, bb) in [(8, 2), (2, 15), (31, 1), (1, 1)]:
         for no in (1, 9):
